@@ -566,7 +566,7 @@ func TestC16(t *testing.T) {
 		"the JSONSCHEMAGODEBUG=typeschemasnull=1 configuration is run by the thorough tier in a child process")
 	rapid.Check(t, func(t *rapid.T) {
 		c := &c16Case{Ignore: rapid.Bool().Draw(t, "ignore")}
-		o := tgen.Opts{MaxDepth: rapid.IntRange(1, 3).Draw(t, "depth"), Std: true, Recursive: rapid.IntRange(0, 2).Draw(t, "rec") == 0, Unsupported: rapid.IntRange(0, 1).Draw(t, "unsup") == 0}
+		o := tgen.Opts{MaxDepth: rapid.IntRange(1, 3).Draw(t, "depth"), Std: true, Methods: true, Recursive: rapid.IntRange(0, 2).Draw(t, "rec") == 0, Unsupported: rapid.IntRange(0, 1).Draw(t, "unsup") == 0}
 		if rapid.IntRange(0, 19).Draw(t, "feature") == 0 {
 			c.Feature = "nameconflict"
 			o.NameConflicts = true
